@@ -134,6 +134,7 @@ type VerifDsDump struct {
 	Dseq    int64      `json:"dseq"`  // raw value of the dataset's change-sequence key (-1: absent)
 	Items   int64      `json:"items"` // items counter of the core.Dataset meta entity (-1: absent)
 	Seqs    []int64    `json:"seqs"`  // raw change-log positions
+	SeqTimes []int64   `json:"seqtimes"` // time in the version key each change entry points to
 	SeqIds  []uint64   `json:"seqids"`
 	Changes []VerifEnt `json:"changes"`
 	Next    int64      `json:"next"`
@@ -208,8 +209,8 @@ func verifReference(c VerifC04Case, dir string, ndone int, inprog int) (a *Verif
 		n = inprog
 	}
 	for i := 0; i < n && i < len(c.Ops); i++ {
-		if c.Ops[i].Op == "restart" {
-			continue
+		if c.Ops[i].Op == "restart" || c.Ops[i].RejectIn != "" {
+			continue // a refused transaction must leave nothing: the reference run does not even attempt it
 		}
 		verifDoOp(h, c.Ops[i], i, times, tokens)
 	}
@@ -563,6 +564,11 @@ func verifDump(h *verifHub, c VerifC04Case) *VerifDump {
 				if len(k) == 22 {
 					dd.Seqs = append(dd.Seqs, int64(binary.BigEndian.Uint64(k[6:])))
 					dd.SeqIds = append(dd.SeqIds, binary.BigEndian.Uint64(k[14:]))
+					var kt int64 = -1
+					if v, err := it.Item().ValueCopy(nil); err == nil && len(v) == 24 {
+						kt = int64(binary.BigEndian.Uint64(v[14:]))
+					}
+					dd.SeqTimes = append(dd.SeqTimes, kt)
 				}
 			}
 			return nil
